@@ -264,6 +264,16 @@ func (c *Check) guardRule(rule string, sel func(*ssa.Function) bool, constOnly b
 						why, ok, hookFn = w+" [site now in helper "+fnName(f)+"]", true, fnName(caller)
 						break
 					}
+					// the value was a local of the caller and is a parameter of the helper (or the
+					// reverse): compare the keys with roots reduced to their types
+					for k3, w := range exceptions {
+						if !seenKeys[k3] && strings.HasPrefix(k3, "idx:"+fnName(caller)+":") && looseSiteKey(k3) == looseSiteKey(k2) {
+							why, ok, hookFn = w+" [site now in helper "+fnName(f)+"]", true, fnName(caller)
+						}
+					}
+					if ok {
+						break
+					}
 				}
 			}
 			if os.Getenv("MIGRATE_KEYS") != "" && !ok {
@@ -1055,3 +1065,8 @@ func directCallers(p *Program, f *ssa.Function) []*ssa.Function {
 	sortFns(out)
 	return out
 }
+
+var looseRootRE = regexp.MustCompile(`(param#\d+ |var )`)
+
+// looseSiteKey: a site key with `param#N T` and `var T` roots reduced to `T`.
+func looseSiteKey(k string) string { return looseRootRE.ReplaceAllString(k, "") }
